@@ -6,9 +6,11 @@
 package main
 
 import (
+	"bytes"
 	"fmt"
 	"go/ast"
 	"go/parser"
+	"go/printer"
 	"go/token"
 	"os"
 	"path/filepath"
@@ -210,6 +212,41 @@ func main() {
 	wm, wr := modEq(funcDecl(f, "writeInternal"), "writeIndex")
 	rm, rr := modEq(funcDecl(f, "onDone"), "readIndex")
 
+	// 5. consumer glue: "Done is called with the outcome of the export, after it returned".  The loop of asyncQueue.Start and
+	//    disabledBatcher.Consume must have exactly this shape (the batching consumer is C04's refCountDone model).
+	render := func(fset *token.FileSet, n ast.Node) string {
+		var b bytes.Buffer
+		_ = printer.Fprint(&b, fset, n)
+		return strings.Join(strings.Fields(b.String()), " ")
+	}
+	{
+		fset := token.NewFileSet()
+		af, err := parser.ParseFile(fset, filepath.Join(repo, "exporter/exporterhelper/internal/queuebatch/async_queue.go"), nil, 0)
+		if err != nil {
+			die("%v", err)
+		}
+		var loops []string
+		ast.Inspect(funcDecl(af, "Start"), func(n ast.Node) bool {
+			if fs, ok := n.(*ast.ForStmt); ok && fs.Cond == nil && fs.Init == nil {
+				loops = append(loops, render(fset, fs.Body))
+			}
+			return true
+		})
+		want := "{ ctx, req, done, ok := qc.Read(context.Background()) if !ok { return } qc.consumeFunc(ctx, req, done) }"
+		if len(loops) != 1 || loops[0] != want {
+			die("asyncQueue.Start: consumer loop changed: %q", loops)
+		}
+		fset2 := token.NewFileSet()
+		df, err := parser.ParseFile(fset2, filepath.Join(repo, "exporter/exporterhelper/internal/queuebatch/disabled_batcher.go"), nil, 0)
+		if err != nil {
+			die("%v", err)
+		}
+		got := render(fset2, funcDecl(df, "Consume").Body)
+		if got != "{ done.OnDone(db.consumeFunc(ctx, req)) }" {
+			die("disabledBatcher.Consume changed: %q", got)
+		}
+	}
+
 	fmt.Println("/-! GENERATED by translators/cmd/pqkeys from exporter/exporterhelper/internal/queuebatch/persistent_queue.go — do not edit -/")
 	fmt.Println("namespace OtelVerif.Gen.PQKeys")
 	fmt.Printf("def readIndexKey : String := %q\n", keys["readIndexKey"])
@@ -221,5 +258,7 @@ func main() {
 	fmt.Printf("/-- `bytesToItemIndexArray`: width of the length prefix (little endian uint32) and of one element (`size*W`) -/\ndef arrayPrefixWidth : Nat := %d\ndef arrayElemWidth : Nat := %d\n", w2[0], elem)
 	fmt.Printf("/-- `(writeIndex %% M) == R` of writeInternal, `(readIndex %% M) == R` of onDone -/\n")
 	fmt.Printf("def writeBackupMod : Nat := %d\ndef writeBackupRem : Nat := %d\ndef readBackupMod : Nat := %d\ndef readBackupRem : Nat := %d\n", wm, wr, rm, rr)
+	fmt.Println("/-- 1 = the consumer glue has the pinned shape: asyncQueue's loop is `Read; if !ok return; consumeFunc(ctx, req, done)` and\n    disabledBatcher.Consume is `done.OnDone(db.consumeFunc(ctx, req))` (otherwise the translator fails) -/")
+	fmt.Println("def consumerGlueShapePinned : Nat := 1")
 	fmt.Println("end OtelVerif.Gen.PQKeys")
 }
